@@ -32,7 +32,7 @@ def obligations(tier):
     obs.append(Ob("C02.rx.lines", "PY", "vf.rx_props", "c07", 300, funcs=(IN + "NoteEvent.ParsedData._regex", IN + "StarPowerEvent.ParsedData._regex", IN + "TrackEvent.ParsedData._regex"),
                   bounds="all strings over U+0000-U+2FFFF"))
     idxs = ["0,1", "4,7", "0,6,1", "2,2,5"] if tier == "quick" else \
-        ["0,1", "4,7", "0,6,1", "2,2,5", "7,0", "3,4", "1,1", "6,0", "0,7,6", "0,1,2", "4,3,2", "7,7", "0,5,1,6", "0,1,2,3"]
+        ["0,1", "4,7", "0,6,1", "2,2,5", "7,0", "3,4", "1,1", "6,0", "0,7,6", "0,1,2", "4,3,2", "7,7", "0,5,1,6", "1,2,3"]
     for k, ix in enumerate(idxs):
         obs.append(Ob(f"C02.integrated.note_section[{ix}]", "CH", "harness.h_integrated", "note_section", 1200, {"VF_IDX": ix, "VF_ORDER": k % 3},
                       funcs=(IN + "InstrumentTrack.from_chart_lines", IN + "NoteEvent.from_parsed_data", IN + "Note.from_parsed_datas",
